@@ -1,5 +1,222 @@
 (* Pat/ChanceProofs.v — lemmas about the model of the stochastic patterns (Pat/Chance.v). *)
 From Isobar Require Import Base.Prelude Pat.Chance.
-From Coq Require Import QArith Qround Qabs Permutation.
+From Coq Require Import QArith Qround Qabs Permutation Lqa.
 Local Notation length := List.length (only parsing).
 Open Scope Z_scope.
+
+(** * Generic facts about scripts: reset / re-seed rewind, isolation *)
+Section Generic.
+  Variable R : Type.
+  Variable r_seed : Z -> R.
+  Variable S : Type.
+  Variable m : machine R S.
+
+  Lemma run_cons i o r :
+    run R r_seed m i (o :: r) =
+    match snd (do_op R r_seed m i o) with
+    | Some x => x :: run R r_seed m (fst (do_op R r_seed m i o)) r
+    | None => run R r_seed m (fst (do_op R r_seed m i o)) r
+    end.
+  Proof.
+    unfold run. cbn [run_st]. destruct (do_op R r_seed m i o) as [i' e]. cbn [fst snd].
+    destruct (run_st R r_seed m i' r) as [i'' es]. destruct e; reflexivity.
+  Qed.
+
+  Lemma after_cons i o r :
+    after R r_seed m i (o :: r) = after R r_seed m (fst (do_op R r_seed m i o)) r.
+  Proof.
+    unfold after. cbn [run_st]. destruct (do_op R r_seed m i o) as [i' e]. cbn [fst snd].
+    destruct (run_st R r_seed m i' r) as [i'' es]. reflexivity.
+  Qed.
+
+  Lemma run_app i a b :
+    run R r_seed m i (a ++ b) = run R r_seed m i a ++ run R r_seed m (after R r_seed m i a) b.
+  Proof.
+    revert i. induction a as [|o a IH]; intro i.
+    - reflexivity.
+    - cbn [app]. rewrite !run_cons, after_cons, IH. destruct (snd (do_op R r_seed m i o)); reflexivity.
+  Qed.
+
+  (* reset() puts the pattern into the state of a new instance seeded with the stored seed *)
+  Lemma reset_rewinds i pre post :
+    run R r_seed m i (pre ++ Reset :: post) =
+    run R r_seed m i pre ++ run R r_seed m (fresh R r_seed m (i_seed (after R r_seed m i pre))) post.
+  Proof. rewrite run_app, run_cons. reflexivity. Qed.
+
+  (* seed(s) followed by reset() puts it into the state of a new instance seeded with s *)
+  Lemma reseed_reset_rewinds i pre s post :
+    run R r_seed m i (pre ++ Seed s :: Reset :: post) =
+    run R r_seed m i pre ++ run R r_seed m (fresh R r_seed m s) post.
+  Proof. rewrite run_app, !run_cons. reflexivity. Qed.
+
+  Definition no_seed (ops : list op) : Prop := Forall (fun o => match o with Seed _ => False | _ => True end) ops.
+
+  Lemma seed_kept i ops : no_seed ops -> i_seed (after R r_seed m i ops) = i_seed i.
+  Proof.
+    intro H. revert i. induction H as [|o r Ho Hr IH]; intro i.
+    - reflexivity.
+    - rewrite after_cons, IH. destruct o; cbn; try reflexivity; try contradiction.
+      destruct (m_step m (i_st i) (i_gen i)) as [[? ?] ?]. reflexivity.
+  Qed.
+
+  Lemma reset_replays s pre post :
+    no_seed pre ->
+    run R r_seed m (fresh R r_seed m s) (pre ++ Reset :: post) =
+    run R r_seed m (fresh R r_seed m s) pre ++ run R r_seed m (fresh R r_seed m s) post.
+  Proof. intro H. rewrite reset_rewinds, (seed_kept _ _ H). reflexivity. Qed.
+
+  (* an invariant of the state that every step preserves bounds every output of every script *)
+  Lemma run_Forall (Inv : S -> Prop) (P : res -> Prop) :
+    (forall st g r st' g', Inv st -> m_step m st g = (r, st', g') -> P r /\ Inv st') ->
+    Inv (m_init m) ->
+    forall ops i, Inv (i_st i) -> Forall P (run R r_seed m i ops).
+  Proof.
+    intros Hstep Hinit ops. induction ops as [|o r IH]; intros i Hi.
+    - constructor.
+    - rewrite run_cons. destruct o; cbn.
+      + destruct (m_step m (i_st i) (i_gen i)) as [[x st'] g'] eqn:E. cbn.
+        destruct (Hstep _ _ _ _ _ Hi E) as [Hp Hi']. constructor; [exact Hp|]. apply IH. exact Hi'.
+      + apply IH. exact Hinit.
+      + apply IH. exact Hi.
+  Qed.
+End Generic.
+
+(** ** Isolation: in a world of patterns and the global generator, under any schedule, the outputs of
+       pattern [a] are those of [a] alone on its own operations *)
+Section Isolation.
+  Variable R : Type.
+  Variable r_unit : R -> Z * R.
+  Variable r_below : Z -> R -> Z * R.
+  Variable r_seed : Z -> R.
+  Variable S : Type.
+  Variable M : nat -> machine R S.
+
+  Lemma isolation a : forall sched w,
+    outputs_of a (wrun R r_unit r_below r_seed S M w sched) =
+    run R r_seed (M a) (w_inst R S w a) (proj a sched).
+  Proof.
+    induction sched as [|o r IH]; intro w.
+    - reflexivity.
+    - destruct o as [id o| |n|s]; cbn [wrun wstep proj].
+      + destruct (do_op R r_seed (M id) (w_inst R S w id) o) as [i' e] eqn:E.
+        destruct (Nat.eqb id a) eqn:Eid.
+        * apply Nat.eqb_eq in Eid. subst id. rewrite run_cons, E. cbn [fst snd].
+          destruct e as [x|]; cbn [outputs_of]; [rewrite Nat.eqb_refl; f_equal|];
+            rewrite IH; cbn [w_inst]; unfold set_inst; rewrite Nat.eqb_refl; reflexivity.
+        * assert (Hk : w_inst R S (mkWorld R S (set_inst R S (w_inst R S w) id i') (w_glob R S w)) a = w_inst R S w a).
+          { cbn [w_inst]. unfold set_inst. rewrite Nat.eqb_sym, Eid. reflexivity. }
+          destruct e as [x|]; cbn [outputs_of]; [rewrite Eid|]; rewrite IH, Hk; reflexivity.
+      + rewrite IH. reflexivity.
+      + rewrite IH. reflexivity.
+      + rewrite IH. reflexivity.
+  Qed.
+End Isolation.
+
+(** * Weighted index: util.windex / normalize *)
+Definition cum (ws : list Q) (k : nat) : Q := qsum (firstn k ws).
+Definition nonneg (ws : list Q) : Prop := Forall (fun w => (0 <= w)%Q) ws.
+
+Lemma Qltb_true a b : Qltb a b = true <-> (a < b)%Q.
+Proof.
+  unfold Qltb. rewrite negb_true_iff. split; intro H.
+  - apply Qnot_le_lt. intro L. apply Qle_bool_iff in L. congruence.
+  - destruct (Qle_bool b a) eqn:E; [|reflexivity]. apply Qle_bool_iff in E. exfalso. eapply Qlt_not_le; eauto.
+Qed.
+Lemma Qltb_false a b : Qltb a b = false <-> (b <= a)%Q.
+Proof.
+  unfold Qltb. rewrite negb_false_iff. apply Qle_bool_iff.
+Qed.
+
+Lemma cum_cons w r k : (cum (w :: r) (Datatypes.S k) == w + cum r k)%Q.
+Proof. unfold cum. cbn [firstn qsum]. reflexivity. Qed.
+Lemma cum_0 ws : (cum ws 0 == 0)%Q.
+Proof. reflexivity. Qed.
+
+Lemma cum_nonneg ws k : nonneg ws -> (0 <= cum ws k)%Q.
+Proof.
+  intro H. revert k. induction H as [|w r Hw Hr IH]; intros [|k]; try (unfold cum; cbn; lra).
+  rewrite cum_cons. specialize (IH k). lra.
+Qed.
+
+Lemma windex_from_ge ws : forall n i j, windex_from ws n i = Some j -> i <= j.
+Proof.
+  induction ws as [|w r IH]; intros n i j H; cbn in H; [discriminate|].
+  destruct (Qltb n w); [injection H; lia|]. apply IH in H. lia.
+Qed.
+
+Lemma windex_from_interval ws : nonneg ws -> forall n i k, (0 <= n)%Q -> (k < length ws)%nat ->
+  (windex_from ws n i = Some (i + Z.of_nat k) <-> (cum ws k <= n /\ n < cum ws (Datatypes.S k))%Q).
+Proof.
+  intro H. induction H as [|w r Hw Hr IH]; intros n i k Hn Hk; [cbn in Hk; lia|].
+  cbn [windex_from]. destruct k as [|k].
+  - rewrite cum_cons, !cum_0. destruct (Qltb n w) eqn:E.
+    + apply Qltb_true in E. split; intro; [lra|f_equal; lia].
+    + apply Qltb_false in E. split; intro X.
+      * apply windex_from_ge in X. lia.
+      * lra.
+  - assert (Hk' : (k < length r)%nat) by (cbn in Hk; lia).
+    assert (C1 : (cum (w :: r) (Datatypes.S k) == w + cum r k)%Q) by apply cum_cons.
+    assert (C2 : (cum (w :: r) (Datatypes.S (Datatypes.S k)) == w + cum r (Datatypes.S k))%Q) by apply cum_cons.
+    pose proof (cum_nonneg r k Hr) as P1.
+    destruct (Qltb n w) eqn:E.
+    + apply Qltb_true in E. split; intro X; [injection X; lia|lra].
+    + apply Qltb_false in E.
+      replace (i + Z.of_nat (Datatypes.S k)) with ((i + 1) + Z.of_nat k) by lia.
+      rewrite (IH (n - w)%Q (i + 1) k ltac:(lra) Hk'). rewrite C1, C2. split; intro; lra.
+Qed.
+
+Lemma cum_step ws k : (k < length ws)%nat -> (cum ws (Datatypes.S k) - cum ws k == nth k ws 0)%Q.
+Proof.
+  revert k. induction ws as [|w r IH]; intros k Hk; [cbn in Hk; lia|].
+  destruct k as [|k].
+  - rewrite cum_cons, !cum_0. cbn [nth]. lra.
+  - cbn in Hk. specialize (IH k ltac:(lia)). rewrite !cum_cons. cbn [nth]. lra.
+Qed.
+
+Lemma qsum_map_div l s : (~ s == 0)%Q -> (qsum (map (fun w => w / s) l) == qsum l / s)%Q.
+Proof.
+  intro Hs. induction l as [|x r IH]; cbn.
+  - field. exact Hs.
+  - rewrite IH. field. exact Hs.
+Qed.
+
+Lemma cum_normalize ws k : (~ qsum ws == 0)%Q -> (cum (normalize ws) k == cum ws k / qsum ws)%Q.
+Proof.
+  intro Hs. unfold normalize. destruct (Qeq_bool (qsum ws) 0) eqn:E.
+  - apply Qeq_bool_iff in E. contradiction.
+  - unfold cum. rewrite firstn_map. apply qsum_map_div. exact Hs.
+Qed.
+
+Lemma nonneg_normalize ws : nonneg ws -> (0 < qsum ws)%Q -> nonneg (normalize ws).
+Proof.
+  intros H Hs. unfold normalize. destruct (Qeq_bool (qsum ws) 0); [exact H|].
+  unfold nonneg in *. rewrite Forall_map. eapply Forall_impl; [|exact H].
+  intros a Ha. cbv beta in *. apply Qle_shift_div_l; [exact Hs|lra].
+Qed.
+
+Lemma length_normalize ws : length (normalize ws) = length ws.
+Proof. unfold normalize. destruct (Qeq_bool _ _); [reflexivity|apply map_length]. Qed.
+
+(* the weighted index is k exactly when the uniform draw falls into [cum k / W, cum (k+1) / W) *)
+Lemma wnindex_interval ws u k : nonneg ws -> (0 < qsum ws)%Q -> (0 <= u)%Q -> (k < length ws)%nat ->
+  (wnindex ws u = Some (Z.of_nat k) <->
+   (cum ws k / qsum ws <= u /\ u < cum ws (Datatypes.S k) / qsum ws)%Q).
+Proof.
+  intros H Hs Hu Hk. unfold wnindex, windex.
+  assert (Hn : (~ qsum ws == 0)%Q) by lra.
+  pose proof (windex_from_interval (normalize ws) (nonneg_normalize ws H Hs) u 0 k Hu
+                ltac:(rewrite length_normalize; exact Hk)) as X.
+  change (0 + Z.of_nat k) with (Z.of_nat k) in X. rewrite X. rewrite !cum_normalize by exact Hn. reflexivity.
+Qed.
+
+(* that interval has length w_k / W: under a uniform draw, index k has probability mass w_k / sum(w) *)
+Lemma wnindex_mass ws k : (0 < qsum ws)%Q -> (k < length ws)%nat ->
+  (cum ws (Datatypes.S k) / qsum ws - cum ws k / qsum ws == nth k ws 0 / qsum ws)%Q.
+Proof.
+  intros Hs Hk. pose proof (cum_step ws k Hk). 
+  assert (E : (cum ws (Datatypes.S k) / qsum ws - cum ws k / qsum ws == (cum ws (Datatypes.S k) - cum ws k) / qsum ws)%Q) by (field; lra).
+  rewrite E, H. reflexivity.
+Qed.
+
+Lemma cum_all ws : (cum ws (length ws) == qsum ws)%Q.
+Proof. unfold cum. rewrite firstn_all. reflexivity. Qed.
